@@ -29,7 +29,7 @@ WORKERS = {"quick": 6, "thorough": 16}
 MIN_NONTRIVIAL = {"quick": 200, "thorough": 1500}
 REQUIRED_FUNCTIONS = ["program.py:BlackbirdProgram.serialize", "listener.py:RegRefTransform.__init__", "listener.py:BlackbirdListener.exitStatement", "program.py:_format_value"]
 FUNCTIONS = REQUIRED_FUNCTIONS
-REQUIRED_TAGS = ["param-multi", "regref-multi", "include>=3-modes", "symbolic-include-argument", "regref-multi-in-included-program"]
+REQUIRED_TAGS = ["param-multi", "regref-multi", "include>=3-modes", "symbolic-include-argument", "regref-multi-in-included-program", "tdm-parameter-valued-variable"]
 ASSUMPTIONS = ["the documented freedom (order in which a register transform lists its registers) is canonicalised: sorted register set + function values fed in the listed order"]
 
 
@@ -54,6 +54,17 @@ def make_script(rng, g):
         files, main_path, info = c07.build(rng, g, symbolic_args=rng.random() < 0.4, regref_args=rr)
         return ("tree", files, main_path, ({"include>=3-modes"} if any(s[2] >= 3 for s in info["subs"]) else {"include"}) | (info["tags"] & {"symbolic-include-argument"})
                 | ({"regref-multi-in-included-program"} if rr else set()))
+    if c < 0.33:
+        # tdm script with several variables, one of them holding a free parameter (serialised variable block)
+        from . import c15
+
+        text, tags_, _p = c15.build(rng, g, tdm=True)
+        ls = text.rstrip("\n").split("\n")
+        at = next(i for i, ln in enumerate(ls) if ln.startswith("type tdm")) + 1
+        nm = "sc_%d" % rng.randint(0, 99)
+        ls.insert(at + 1, "float %s = %s" % (nm, rng.choice(["{gain_}", "2*{gain_}", "{gain_} - {offs_}"])))
+        ls.append("Rgate(%s) | 0" % nm)
+        return ("text", "\n".join(ls) + "\n", None, {"tdm-parameter-valued-variable"})
     hostile = ["r", "rr", "r1", "a", "a1", "alpha", "al", "e", "E", "I", "S", "N", "p0", "p01", "phi", "phi2", "ph", "x", "xx", "x_1", "theta", "theta1"]
     if rng.random() < 0.3:
         # a name next to the same name with a suffix
